@@ -11,6 +11,7 @@ Integer semantics told to the solver (python ints are unbounded -> z3 Int is exa
 """
 from __future__ import annotations
 
+import ast
 import z3
 
 from .values import (
@@ -983,6 +984,19 @@ def struct_unpack(I, fmt, data, st, node=None):
 
 
 # ---------------------------------------------------------------------------------------------- builtins
+def _class_may_set_attr(I, cls, attr):
+    """does any method of the class (or of its bases) assign self.<attr>?"""
+    for q in I.index.mro(cls):
+        ci = I.index.classes.get(q)
+        if ci is None:
+            continue
+        for fn in ci.methods.values():
+            for n in ast.walk(fn):
+                if isinstance(n, ast.Attribute) and isinstance(n.ctx, ast.Store) and n.attr == attr and isinstance(n.value, ast.Name) and n.value.id == "self":
+                    return True
+    return False
+
+
 def call_builtin(I, f, args, kwargs, st, node=None):
     name = f.name
     recv = f.recv
@@ -995,6 +1009,23 @@ def call_builtin(I, f, args, kwargs, st, node=None):
         return builtin_len(I, args[0], st, node)
     if name == "isinstance":
         return V(builtin_isinstance(I, args[0], args[1], st, node), st)
+    if name in ("getattr", "hasattr"):
+        obj, attr = args[0], args[1]
+        if not isinstance(attr, str):
+            raise Unsupported(f"{name} with a non-constant attribute name", node)
+        out = []
+        for k, v, s in I.getattr(obj, attr, st, node):
+            missing = k == "exc" and isinstance(v, ExcVal) and v.cls == "AttributeError"
+            if missing and isinstance(obj, Ref) and isinstance(I.hget(s, obj), HInst) and _class_may_set_attr(I, I.hget(s, obj).cls, attr):
+                # the instance was built by a harness shape without this field although the class's own code sets it: do not guess
+                raise Unsupported(f"{name}: field {attr} not given in the shape of {I.hget(s, obj).cls}", node)
+            if name == "hasattr":
+                out.append(("val", not missing, s) if (missing or k == "val") else (k, v, s))
+            elif missing and len(args) > 2:
+                out.append(("val", args[2], s))
+            else:
+                out.append((k, v, s))
+        return out
     if name == "divmod":
         if not (is_intlike(args[0]) and is_intlike(args[1])):
             raise Unsupported("divmod of non-integers", node)
